@@ -390,6 +390,9 @@ def _run(ctx, pq):
             ctx.count("F.op", o)
         for kd in case["dist"]["kinds"]:
             ctx.count("F.partition_kind", kd)
+    # ---------------------------------------------------------------- G: twin datasets (harness/twins.py): same relative layout and partition
+    # column, values as text / as int, bool, float, timestamp; hive and drill; A then B and B then A in one process, against a fresh interpreter
+    TW.run(ctx, "harness.props.C08", [TW.gen_partition_case(rng, i) for i in range(10 if quick else 50)], stream="G.twins")
     # ---------------------------------------------------------------- F2: the generic handle-program runner (harness/handleprog.py, w3-reads)
     # on PARTITIONED hive datasets: derivations (slices, picks, pickle, copy, deepcopy) and failed appends that stream F does not have,
     # appended rows bringing partition values that sort between the existing ones; every observer answer of a live handle (rows, partition
@@ -1234,6 +1237,40 @@ def check_handle_prog(case, root, pq, ctx=None, verbose=False):
     return {"problems": problems, "trivial": not live, "cls": cls}
 
 
+# -------------------------------------------------------------------------------------------------- twins (harness/twins.py)
+def _tw8_read(root, case, which):
+    from fastparquet import ParquetFile
+    return L.twin_partition_answer(ParquetFile(root), case)
+
+
+def _tw8_partial(root, case, which):
+    from fastparquet import ParquetFile
+    pf = ParquetFile(root)
+    col = case["col"] if case.get("scheme", "hive") == "hive" else "dir0"
+    out = {"iter": sorted([int(i), L.canon(v)] for fr in pf.iter_row_groups() for i, v in zip(fr["id"], fr[col]))}
+    if len(pf.row_groups) > 1:
+        sub = pf[1:].to_pandas()
+        out["slice"] = sorted([int(i), L.canon(v)] for i, v in zip(sub["id"], sub[col]))
+    return out
+
+
+def _tw8_functions(root, case, which):
+    """the pure functions of the reader on the dataset's own paths / metadata / key texts"""
+    from fastparquet import ParquetFile, api, util
+    pf = ParquetFile(root)
+    paths = [rg.columns[0].file_path for rg in pf.row_groups]
+    sch, cats = api.paths_to_cats(paths, pf.partition_meta)
+    metas = list(pf.partition_meta.values())
+    return {"paths_to_cats": [sch, [[k, sorted(json.dumps(L.canon(v)) for v in vs)] for k, vs in cats.items()]],
+            "val_to_num": [L.canon(util.val_to_num(t, meta=metas[0] if metas else None)) for t in sorted(set(case["texts"]))],
+            "guess": [L.canon(util.val_to_num(t)) for t in sorted(set(case["texts"]))]}
+
+
+from harness import twins as TW       # noqa: E402
+twin_build = TW.partition_twins
+TWIN_OPS = {"read": _tw8_read, "partial": _tw8_partial, "functions": _tw8_functions, "read-again": _tw8_read}
+
+
 def _num(c):
     return {"b": int, "i": int, "f": float}[c[0]](c[1])
 
@@ -1255,10 +1292,12 @@ def replay(rep):
         first = (rep.get("no_longer_checks") or [{}])[0]
         print(json.dumps(rep, indent=1, default=repr)[:5000])
         case = first.get("detail", {}).get("case") if isinstance(first.get("detail"), dict) else None
-        if not (isinstance(case, dict) and ("frame" in case or "prog" in case or "handle_program" in case)):
+        if not (isinstance(case, dict) and ("frame" in case or "prog" in case or "handle_program" in case or "twins" in case)):
             return 1
     else:
         case = rep["case"]
+    if "twins" in case:
+        return TW.replay(case)
     if "handle_program" in case:
         from harness import handleprog as HP
         return HP.replay_case(case["handle_program"])
